@@ -240,7 +240,9 @@ REAL = {'fd': None, 'run': None, 'jitter': 0.002}   # real-loop mode: trace goes
 
 def real_emit(kind, run, node, **data):
     import os
-    rec = {'k': kind, 'run': run, 'node': node, 'pid': os.getpid()}
+    import threading
+    rec = {'k': kind, 'run': run, 'node': node, 'pid': os.getpid(),
+           'main_thread': threading.current_thread() is threading.main_thread()}
     rec.update(data)
     os.write(REAL['fd'], (repr(rec) + '\n').encode())
 
@@ -326,6 +328,9 @@ def body(inst, nid, kwargs):
 
 async def abody(inst, nid, kwargs):
     s, node, run, attempt = _begin(nid, kwargs, inst)
+    # per-call state kept on the node object across a suspension point: legitimate because the engine
+    # promises a new node object per invocation (C08 mechanism "get_instance")
+    inst._rv_call = kwargs
     try:
         if s.real:
             import random as _r
@@ -335,7 +340,7 @@ async def abody(inst, nid, kwargs):
     except asyncio.CancelledError:
         s.ev('body_cancelled', run, nid, attempt=attempt)
         raise
-    return _finish(s, node, run, attempt, kwargs, inst)
+    return _finish(s, node, run, attempt, inst._rv_call, inst)
 
 
 def default(inst, nid, kwargs):
